@@ -87,6 +87,24 @@ def build(U):
     for fn in ('try_parse', 'try_check', 'try_parse_partial', 'try_check_partial'):
         tr.body_start("        proof { assert(stack_all_wf(StackView::<Span<'i>> { cur: Seq::empty(), snaps: Seq::empty() })); }", fname=fn)
     U.emit(tr)
+    # ---- trait TypedParser (lib.rs): the generated parser's entry points delegate to the node's own (C04) --------------
+    U.ghost("""
+// input.rs:273-279 (contract only here; the body is verified in unit `input`)
+impl<'i> AsInput<'i> for &'i str {
+    type Output = Position<'i>;
+    open spec fn as_ctx(&self) -> Ctx<'i> { Ctx { input: *self, start: 0, end: self.spec_bytes().len() } }
+    open spec fn valid(&self) -> bool { true }
+    #[verifier::external_body]
+    fn as_input(&self) -> Position<'i> { unimplemented!() }
+}
+""", "impl AsInput for &str (contract only)")
+    tp = U.block_item('main/src/lib.rs', r"pub trait TypedParser<R: RuleType>", 'trait TypedParser').drop_attrs()
+    tp.keep_methods(['try_parse', 'try_check'])
+    tp.rw('R2', 'error::Error<R>', 'Error<R>', count=2)
+    TPFULL = "T::full(Ctx { input: input, start: 0, end: input.spec_bytes().len() }, 0, Seq::<Span<'i>>::empty())"
+    tp.ret('r', fname='try_parse'); tp.contract('        ensures (r is Ok) == %s,' % TPFULL, fname='try_parse')
+    tp.ret('r', fname='try_check'); tp.contract('        ensures (r is Ok) == %s,' % TPFULL, fname='try_check')
+    U.emit(tp)
     for name, inner, emission, atomic in KINDS:
         st = U.block_item('expanded', r'pub struct %s<' % name, 'struct ' + name).drop_attrs()
         st.text = re.sub(r'^(\s*)_phantom:', r'\1pub _phantom:', st.text, flags=re.M)
